@@ -5,6 +5,7 @@ package gen
 import (
 	"time"
 	_ "time/tzdata" // real zone rules without depending on the host's zoneinfo
+	"unsafe"
 )
 
 type RNG struct{ s uint64 }
@@ -192,10 +193,19 @@ type InstantSpec struct {
 	Ns   int64 `json:"ns"`
 	Zone int   `json:"zone"`
 	Mono bool  `json:"mono"`
+	// MonoSkewNs (with Mono): the monotonic reading is shifted by this much against the wall clock, as in a
+	// time.Time taken before/after the wall clock was stepped (NTP correction, suspend/resume, VM migration):
+	// wall second, nanosecond and zone are untouched, only Sub/Before/After/Equal between such values differ.
+	MonoSkewNs int64 `json:"mono_skew_ns,omitempty"`
 }
 
 func (r *RNG) InstantSpec(unix int64) InstantSpec {
-	return InstantSpec{Unix: unix, Ns: Pick(r, []int64{0, 1, 999999999, int64(r.Intn(1000000000))}), Zone: r.Intn(len(zones)), Mono: r.Intn(3) == 0}
+	s := InstantSpec{Unix: unix, Ns: Pick(r, []int64{0, 1, 999999999, int64(r.Intn(1000000000))}), Zone: r.Intn(len(zones)), Mono: r.Intn(3) == 0}
+	if s.Mono && r.Bool() {
+		// a reading that disagrees with the wall clock by up to +-1 day (clock stepped since the reading was taken)
+		s.MonoSkewNs = (int64(r.Intn(172800)) - 86400) * Pick(r, []int64{1, 1000, 1000000, 1000000000})
+	}
+	return s
 }
 
 // TransitionInstant returns an instant within +-2 h of a daylight-saving switch of some real zone, rendered in a real zone.
@@ -211,16 +221,79 @@ func (r *RNG) TransitionInstant() InstantSpec {
 // and representable) a value carrying a monotonic clock reading that denotes
 // the same wall instant.
 func (s InstantSpec) Time() time.Time {
-	t := time.Unix(s.Unix, s.Ns).In(zones[s.Zone%len(zones)])
+	z := zones[s.Zone%len(zones)]
+	t := time.Unix(s.Unix, s.Ns).In(z)
 	if s.Mono {
 		now := time.Now()
 		d := time.Unix(s.Unix, s.Ns).Sub(now)
 		if tm := now.Add(d); tm.Unix() == s.Unix && int64(tm.Nanosecond()) == s.Ns {
-			t = tm.In(zones[s.Zone%len(zones)])
+			// (Time.In drops the monotonic reading, so the zone is set on the representation instead)
+			if tz := withLoc(tm, z); MonoShiftWorks && hasMono(tz) {
+				t = shiftMono(tz, s.MonoSkewNs)
+			} else {
+				t = tm // monotonic reading kept, host zone
+			}
 		}
 	}
 	return t
 }
+
+func hasMono(t time.Time) bool { return (*timeRepr)(unsafe.Pointer(&t)).wall>>63 != 0 }
+
+// HasMono reports whether t carries a monotonic clock reading (false when the layout assumption does not hold).
+func HasMono(t time.Time) bool { return MonoShiftWorks && hasMono(t) }
+
+func withLoc(t time.Time, z *time.Location) time.Time {
+	if !MonoShiftWorks {
+		return t
+	}
+	r := (*timeRepr)(unsafe.Pointer(&t))
+	if z == time.UTC {
+		r.loc = nil
+	} else {
+		r.loc = z
+	}
+	return t
+}
+
+// timeRepr mirrors the layout of time.Time in the pinned toolchain (wall, ext, loc); MonoShiftWorks reports
+// whether that assumption holds in this build (checked once, by behaviour).
+type timeRepr struct {
+	wall uint64
+	ext  int64
+	loc  *time.Location
+}
+
+func shiftMono(t time.Time, d int64) time.Time {
+	if !MonoShiftWorks {
+		return t
+	}
+	r := (*timeRepr)(unsafe.Pointer(&t))
+	if r.wall>>63 == 0 || d == 0 {
+		return t // no monotonic reading
+	}
+	r.ext += d
+	return t
+}
+
+// MonoShiftWorks: a shifted value keeps its wall clock reading and differs from the original by exactly the shift
+// in monotonic comparisons.
+var MonoShiftWorks = func() bool {
+	if unsafe.Sizeof(time.Time{}) != unsafe.Sizeof(timeRepr{}) {
+		return false
+	}
+	a := time.Now()
+	b := a
+	r := (*timeRepr)(unsafe.Pointer(&b))
+	if r.wall>>63 == 0 {
+		return false
+	}
+	r.ext += 5e9
+	z := time.FixedZone("x", 3600)
+	r.loc = z
+	return b.Unix() == a.Unix() && b.Nanosecond() == a.Nanosecond() && b.Sub(a) == 5*time.Second && b.After(a) && !b.Equal(a) && b.Round(0).Equal(a.Round(0)) && b.UnixNano() == a.UnixNano() &&
+		b.Location() == z && b.Hour() == a.In(z).Hour() && b.Format(time.RFC3339Nano) == a.In(z).Format(time.RFC3339Nano)
+}()
 
 // Spell renders key bytes as base32 text in one of the accepted spellings.
 // enc is the canonical padded upper-case encoding (supplied by the caller's
@@ -400,3 +473,39 @@ func ShiftPairs(fields []string) [][]string {
 	}
 	return out
 }
+
+// NeighbourKeys returns a base key of length n followed by keys that differ from it as little as possible:
+// one byte changed at each of a set of positions (ends, middle, around hash block sizes 64/128 and around
+// n itself), one byte shorter / longer, and same first half with a different second half. Called back to back
+// with the base on one goroutine, such keys collide under any memo that identifies a key by less than all of it.
+func NeighbourKeys(r *RNG, n int) [][]byte {
+	base := r.Bytes(n)
+	out := [][]byte{base}
+	pos := map[int]bool{}
+	for _, p := range []int{0, 1, n / 2, n - 2, n - 1, 19, 20, 31, 32, 63, 64, 65, 127, 128, 129, 255, 256} {
+		if p >= 0 && p < n {
+			pos[p] = true
+		}
+	}
+	for p := 0; p < n; p++ {
+		if !pos[p] {
+			continue
+		}
+		v := append([]byte(nil), base...)
+		v[p] ^= byte(1 << uint(r.Intn(8)))
+		out = append(out, v)
+	}
+	if n > 1 {
+		out = append(out, append([]byte(nil), base[:n-1]...))
+		v := append([]byte(nil), base...)
+		copy(v[n/2:], r.Bytes(n-n/2))
+		if string(v) != string(base) {
+			out = append(out, v)
+		}
+	}
+	out = append(out, append(append([]byte(nil), base...), byte(r.Intn(256))))
+	return out
+}
+
+// NeighbourKeyLengths are the key lengths NeighbourKeys is worth calling with.
+var NeighbourKeyLengths = []int{1, 2, 10, 19, 20, 21, 32, 33, 63, 64, 65, 66, 100, 127, 128, 129, 130, 160, 161, 200, 255, 256, 257, 300, 1000}
